@@ -556,6 +556,37 @@ pub fn contact_suffix_all(sets: &[&Vec<P>]) -> &'static str {
     near_contact_suffix(sets)
 }
 
+/// `.crossings_close_together` when two crossings of the boundaries of different operands / sub-paths lie within 0.25 of each other
+/// (three boundaries through nearly one point, or two boundaries crossing twice in quick succession): collisions closer than the
+/// library's snapping distances are merged, a recognisable special configuration of the input like the contact classes above.
+/// Computed on the 48-segments-per-curve flattening; only pairs of different sets are intersected.
+pub fn close_crossings_suffix(sets: &[&Vec<P>]) -> &'static str {
+    let flats: Vec<Vec<Poly>> = sets.iter().map(|s| flatten_set(s)).collect();
+    let mut xs: Vec<Coord2> = vec![];
+    for i in 0..flats.len() {
+        for j in (i + 1)..flats.len() {
+            for pa in &flats[i] { for pb in &flats[j] {
+                let (na, nb) = (pa.len(), pb.len());
+                for ka in 0..na {
+                    let (a, b) = (pa[ka], pa[(ka + 1) % na]);
+                    let (ax0, ax1, ay0, ay1) = (a.0.min(b.0), a.0.max(b.0), a.1.min(b.1), a.1.max(b.1));
+                    for kb in 0..nb {
+                        let (c, d) = (pb[kb], pb[(kb + 1) % nb]);
+                        if c.0.max(d.0) < ax0 || c.0.min(d.0) > ax1 || c.1.max(d.1) < ay0 || c.1.min(d.1) > ay1 { continue; }
+                        if segs_cross(a, b, c, d) {
+                            let (r, q) = (b - a, d - c);
+                            let den = cross(r, q);
+                            if den != 0.0 { let t = cross(c - a, q) / den; xs.push(a + r * t); }
+                        }
+                    }
+                }
+            } }
+        }
+    }
+    for i in 0..xs.len() { for j in (i + 1)..xs.len() { let d = dist(xs[i], xs[j]); if d > 1e-9 && d < 0.25 { return ".crossings_close_together"; } } }
+    ""
+}
+
 /// the property's margin from every input boundary, plus the flattening error of the oracle (<= 0.005 for radius <= 30)
 pub const MARGIN: f64 = 0.25;
 pub const MARGIN_SLACK: f64 = 0.01;
